@@ -56,3 +56,29 @@ def load_raw(rel: str) -> Tuple[Dict[int, Dict[str, Any]], Dict[int, str], str]:
         raws[r] = tr
         paths[r] = p
     return raws, paths, d
+
+
+def case_files(rel: str) -> Dict[str, Any]:
+    """{file name: raw trace} of a sample directory (for drivers that write their own copies)."""
+    d = os.path.join(data_root(), rel)
+    return {f: read(os.path.join(d, f)) for f in _files(d)}
+
+
+def sample_cases(tier: str, max_events: int = 20000) -> List[Dict[str, Any]]:
+    out = []
+    for rel in dirs(tier):
+        try:
+            files = case_files(rel)
+        except Exception:  # noqa: BLE001
+            continue
+        if any(not isinstance(t, dict) or "traceEvents" not in t or len(t["traceEvents"]) > max_events for t in files.values()):
+            continue
+        # every file needs a distinct rank for directory loading
+        ranks = [t.get("distributedInfo", {}).get("rank", 0) if isinstance(t.get("distributedInfo"), dict) else 0 for t in files.values()]
+        if len(set(ranks)) != len(ranks):
+            continue
+        for t in files.values():
+            t.setdefault("distributedInfo", {"rank": 0})
+            t["distributedInfo"].setdefault("rank", 0)
+        out.append({"sample": rel, "files": files})
+    return out
